@@ -258,7 +258,58 @@ func (g *gen) filter(depth int, allowZero bool) ir.FilterExpr {
 	return e
 }
 
+// onePattern: a list with exactly one pattern, on a line of its own choosing
+func (g *gen) nPatterns(n int) []ir.PatternString {
+	out := make([]ir.PatternString, n)
+	for i := range out {
+		out[i] = ir.PatternString{Line: g.int(), Value: g.str(true)}
+	}
+	return out
+}
+
+// shapedRule: the shapes rules files convert to (a pattern and a message; alternatives; with a filter / a suggestion / a
+// location / a handler; a comment pattern) -- only the fields of the shape are set, every line number (of the rule, of each
+// pattern, of the filter) is drawn independently: whatever form the printer picks for a shape by looking at which fields
+// are set has to carry each of them.
+func (g *gen) shapedRule() ir.Rule {
+	r := ir.Rule{Line: g.int()}
+	shape := g.rng.Intn(13) // 0, 4, 10..12: a pattern and a message
+	switch shape {
+	case 8:
+		r.CommentPatterns = g.nPatterns(1)
+	case 1, 9:
+		r.SyntaxPatterns = g.nPatterns(2 + g.rng.Intn(2))
+	default:
+		r.SyntaxPatterns = g.nPatterns(1)
+	}
+	switch shape {
+	case 3:
+		r.SuggestTemplate = g.str(true)
+	case 6:
+		r.DoFuncName = g.str(true)
+	default:
+		r.ReportTemplate = g.str(true)
+	}
+	switch shape {
+	case 2, 9:
+		for {
+			r.WhereExpr = g.filter(2, false)
+			if r.WhereExpr.IsValid() {
+				break
+			}
+		}
+	case 5:
+		r.SuggestTemplate = g.str(true)
+	case 7:
+		r.LocationVar = g.str(true)
+	}
+	return r
+}
+
 func (g *gen) rule() ir.Rule {
+	if g.rng.Intn(5) < 2 {
+		return g.shapedRule()
+	}
 	r := ir.Rule{Line: g.int(), SyntaxPatterns: g.patterns(), CommentPatterns: g.patterns(),
 		ReportTemplate: g.str(false), SuggestTemplate: g.str(false), DoFuncName: g.str(false),
 		WhereExpr: g.filter(3, true), LocationVar: g.str(false)}
@@ -632,6 +683,7 @@ func (g *gen) rulesFile(id int) string {
 	fmt.Fprintf(&sb, "\tm.Match(`k($x, $y)`).Where(m[\"y\"].Type.Is(`error`)).Do(suggestDo)\n")
 	fmt.Fprintf(&sb, "\tm.Match(`k($x, $y)`).Do(reportDo)\n")
 	sb.WriteString("}\n\n")
+	sb.WriteString(layoutGroup(id))
 	// Rules that accept nodes other files' rules accept too: only the first accepting rule of an engine reports, so the
 	// order in which loads merge their rules is observable whenever two such files meet in one engine.
 	fmt.Fprintf(&sb, "func overlap%d(m dsl.Matcher) {\n", id)
@@ -644,6 +696,88 @@ func (g *gen) rulesFile(id int) string {
 	}
 	sb.WriteString("}\n\n")
 	return sb.String()
+}
+
+// layoutCall: one call `m.<method>(patterns...)` of a rule chain in source layout k -- where the chain starts, where the
+// call's parenthesis opens and where each pattern literal is written are different lines in all layouts but the last.
+func layoutCall(k int, method string, pats []string) string {
+	q := make([]string, len(pats))
+	for i, p := range pats {
+		q[i] = "`" + p + "`"
+	}
+	switch k % 6 {
+	case 0: // every pattern on a line of its own, closing parenthesis on the next
+		return "\tm." + method + "(\n\t\t" + strings.Join(q, ",\n\t\t") + ",\n\t)"
+	case 1: // the first pattern on the line of the call, the others below
+		return "\tm." + method + "(" + strings.Join(q, ",\n\t\t") + ")"
+	case 2: // a blank line and a comment between the parenthesis and the first pattern
+		return "\tm." + method + "(\n\n\t\t// what to look for\n\t\t" + strings.Join(q, ", ") + ")"
+	case 3: // the chain breaks before the method
+		return "\tm.\n\t\t" + method + "(" + strings.Join(q, ", ") + ")"
+	case 4: // ... and again after the parenthesis
+		return "\tm.\n\t\t" + method + "(\n\t\t\t" + strings.Join(q, ",\n\n\t\t\t") + ")"
+	default:
+		return "\tm." + method + "(" + strings.Join(q, ", ") + ")"
+	}
+}
+
+// layoutGroup: rules whose patterns are written on other lines than the start of their chain, in every shape of a rule (a
+// pattern and a message and nothing else; alternatives; with a filter, a suggestion, a location; a comment pattern). Every
+// rule accepts calls of its own (lay(<n>, ..)) so that each of them reports: the line a report names (RuleInfo.Line) and
+// the lines in the IR are compared between the source and the precompiled path.
+func layoutGroup(id int) string {
+	var sb strings.Builder
+	fmt.Fprintf(&sb, "func layout%d(m dsl.Matcher) {\n", id)
+	rep := func(text string, nl bool) string {
+		if nl {
+			return ".\n\t\tReport(`" + text + "`)\n"
+		}
+		return ".Report(`" + text + "`)\n"
+	}
+	msg := func(n int) string { return fmt.Sprintf("layout %d.%d $x", id, n) }
+	// nothing but a pattern and a message
+	sb.WriteString(layoutCall(0, "Match", []string{"lay(1, $x)"}) + rep(msg(1), false))
+	sb.WriteString(layoutCall(2, "Match", []string{"lay(2, $x)"}) + rep(msg(2), true))
+	sb.WriteString(layoutCall(3+id%2, "Match", []string{"lay(3, $x)"}) + rep(msg(3), id%3 == 0))
+	// alternatives
+	sb.WriteString(layoutCall(id%2, "Match", []string{"lay(4, $x)", "lay(104, $x)"}) + rep(msg(4), false))
+	sb.WriteString(layoutCall(4, "Match", []string{"lay(5, $x)", "lay(105, $x)"}) + rep(msg(5), true))
+	// with a filter / a suggestion / a location
+	sb.WriteString(layoutCall(id, "Match", []string{"lay(6, $x)"}) + ".Where(m[\"x\"].Type.Is(`string`))" + rep(msg(6), false))
+	sb.WriteString(layoutCall(id+1, "Match", []string{"lay(7, $x)"}) + ".Suggest(`lay(70, $x)`)\n")
+	sb.WriteString(layoutCall(id+2, "Match", []string{"lay(8, $x)"}) + ".\n\t\tReport(`" + msg(8) + "`).\n\t\tAt(m[\"x\"])\n")
+	// a comment pattern
+	sb.WriteString(layoutCall(id*5, "MatchComment", []string{"LAYOUT"}) + rep(fmt.Sprintf("layout %d.9", id), false))
+	// the remaining layouts in turn
+	sb.WriteString(layoutCall(id+3, "Match", []string{"lay(10, $x)"}) + rep(msg(10), false))
+	sb.WriteString(layoutCall(id+4, "Match", []string{"lay(11, $x)", "lay(111, $x)"}) + rep(msg(11), true))
+	sb.WriteString(layoutCall(5, "Match", []string{"lay(12, $x)"}) + rep(msg(12), false))
+	sb.WriteString("}\n\n")
+	return sb.String()
+}
+
+// offLineRules: rules of f with a pattern written on another line than the rule starts on; plain: those that are nothing
+// but one syntax pattern and a message
+func offLineRules(f *ir.File) (all, plain int) {
+	for _, g := range f.RuleGroups {
+		for _, r := range g.Rules {
+			off := false
+			for _, p := range append(append([]ir.PatternString{}, r.SyntaxPatterns...), r.CommentPatterns...) {
+				if p.Line != r.Line {
+					off = true
+				}
+			}
+			if !off {
+				continue
+			}
+			all++
+			if len(r.SyntaxPatterns) == 1 && len(r.CommentPatterns) == 0 && r.ReportTemplate != "" && r.SuggestTemplate == "" &&
+				r.DoFuncName == "" && r.LocationVar == "" && !r.WhereExpr.IsValid() {
+				plain++
+			}
+		}
+	}
+	return
 }
 
 const genTarget = `package targ
@@ -732,6 +866,28 @@ func cmpOperands(aa, bb, cc int) {
 }
 
 func a0() int { return 0 }
+
+func lay(n int, x interface{}) {}
+
+func layouts(s string, n int) {
+	// LAYOUT comment
+	lay(1, s)
+	lay(2, n)
+	lay(3, s)
+	lay(4, n)
+	lay(104, s)
+	lay(5, n)
+	lay(105, "five")
+	lay(6, s)
+	lay(6, n)
+	lay(7, n)
+	lay(8, s+"x")
+	lay(9, n)
+	lay(10, s)
+	lay(11, n)
+	lay(111, s)
+	lay(12, n)
+}
 `
 
 // ---------------------------------------------------------------- cases
@@ -762,6 +918,9 @@ type Case struct {
 	ZeroElem string `json:"zero_elem,omitempty"`
 	// rules-file cases: number of function declarations among the CustomDecls (-1: none at all)
 	FuncDecls int `json:"func_decls"`
+	// rules with a pattern on another line than the rule's own; those of them that are one pattern + a message only
+	OffLine      int `json:"off_line,omitempty"`
+	OffLinePlain int `json:"off_line_plain,omitempty"`
 }
 
 // zeroElem: the path of the first zero-valued element of a (non-nil) slice inside v. The reflective printer writes
@@ -1196,6 +1355,7 @@ func main() {
 		}
 		c.Ops = collectOps(it.f)
 		c.NGroups = len(it.f.RuleGroups)
+		c.OffLine, c.OffLinePlain = offLineRules(it.f)
 		func() {
 			defer func() {
 				if r := recover(); r != nil {
